@@ -66,6 +66,14 @@ def _dimkind(exps):
     return dimkind(exps)
 
 
+def _s(u):
+    """str(u) for messages; rendering itself may be what is broken"""
+    try:
+        return str(u)
+    except Exception as e:  # noqa
+        return f"<unit whose str() raises {type(e).__name__}: factors {dict((getattr(f, 'name', None) or '?', x) for f, x in u.factors.items())}>"
+
+
 class Run:
     def __init__(self):
         self.w = World(MODS)
@@ -123,7 +131,7 @@ class Run:
         want = self.expected_dim(u)
         if tuple(u.dimension.exponents) != want:
             where = self.creator.get(id(u), "?")
-            out.fail(f"C01:registry:created-in:{where}", f"after {op}: unit {u} ({how}) reports dimension {u.dimension.exponents} but its factors give {want}")
+            out.fail(f"C01:registry:created-in:{where}", f"after {op}: unit {_s(u)} ({how}) reports dimension {u.dimension.exponents} but its factors give {want}")
 
     def check_new(self, out, op):
         m = self.m
@@ -320,7 +328,7 @@ def run_case(case) -> core.Outcome:
             out.classes.append(f"op-raised:{op}:{type(e).__name__}")
         if op in ("fmt", "pretty", "qpretty", "html", "cli", "ratio", "root", "conv", "convswap", "powconv", "cmp", "add", "str") and shape != "plain":
             risky_render = True
-            seen_pairs.add((op, str(a)))
+            seen_pairs.add((op, _s(a)))
         out.classes.append(f"op:{op}")
         if res is not None and isinstance(res[0], m.Unit):
             r.add(*res)
@@ -335,7 +343,7 @@ def run_case(case) -> core.Outcome:
             want = snap.model_dim(mu)
             if tuple(u.dimension.exponents) != want:
                 where = r.creator.get(id(u), "?")
-                out.fail(f"C01:registry:created-in:{where}", f"{op}: the expression evaluates to unit {u} with dimension {u.dimension.exponents}; its construction gives {want} (history-dependent result)")
+                out.fail(f"C01:registry:created-in:{where}", f"{op}: the expression evaluates to unit {_s(u)} with dimension {u.dimension.exponents}; its construction gives {want} (history-dependent result)")
         if out.failures:
             break
     if nontrivial or seen_pairs:
